@@ -862,8 +862,12 @@ ExitStatus Builder::Build(string* err) {
         *err = "subcommand failed";
     } else if (failures_allowed < config_.failures_allowed)
       *err = "cannot make progress due to previous errors";
-    else
+    else {
+      // No command failed, so the exit code still says success: make sure
+      // this is reported and not taken for a finished build.
       *err = "stuck [this is a bug]";
+      SetFailureCode(ExitFailure);
+    }
 
     return GetExitCode();
   }
